@@ -1669,6 +1669,49 @@ def view_flow(p, f):
     return _FLOWS[f.uid]
 
 
+def _raw_store_kind(p, f, b, s, cf, cs, is_obj):
+    """a raw store `obj.at_mut(c, i)[j] = v` inside a closure built at statement s of block b of f:
+    'rmw' when v is computed from the limb it overwrites; 'range-partial' when the closure is the body of `(lo..hi).for_each` with i the closure's argument and the range provably
+    not the object's whole limb range [0, size); None otherwise (treated as an initialising store, as before)"""
+    base = cs[1][0]
+    for blk in cf.blocks:
+        for st in blk["s"]:
+            if st[0] == "A" and st[2]["k"] == "Bin":
+                for o in st[2]["o"]:
+                    if o[0] in ("c", "m") and len(o[1]) > 1 and o[1][0] == base and "*" in o[1][1:]:
+                        return "rmw"
+    # the for_each this closure is handed to
+    clos_local = s[1][0]
+    plain = Flow(f)
+    sym = Sym(f, plain)
+    rng = None
+    for bi, t in f.calls():
+        if (f.callee_def(t) or {}).get("n") != "for_each" or len(t["a"]) != 2:
+            continue
+        if not (t["a"][1][0] in ("c", "m") and t["a"][1][1][0] == clos_local):
+            continue
+        for r in plain.op_roots(t["a"][0]):
+            if r[0] == "agg":
+                rv = f.blocks[r[1]]["s"][r[2]][2]
+                if rv.get("ak") == "Adt" and rv.get("fields") and "start" in rv["fields"] and "end" in rv["fields"]:
+                    rng = (sym.operand(rv["o"][rv["fields"].index("start")]), sym.operand(rv["o"][rv["fields"].index("end")]))
+    if rng is None:
+        return None
+    size = None
+    for bi, t in f.calls():
+        if (f.callee_def(t) or {}).get("n", "").startswith("take_") and is_obj({("call", bi, ("0",))}) and t["a"]:
+            size = sym.operand(t["a"][-1])
+    if size is None:
+        return None
+    if rng[0].is_const() and (rng[0].const_value() or 0) == 0 and rng[1].key() == size.key():
+        return None
+    # provably a sub-range: the end is a minimum with the size, or the start is not zero
+    at = [a for a in rng[1].atoms()]
+    if (len(at) == 1 and at[0][0] == "f" and at[0][1] == "min" and any(Poly(dict(k)).key() == size.key() for k in at[0][2])) or not (rng[0].is_const() and (rng[0].const_value() or 0) == 0):
+        return "range-partial"
+    return None
+
+
 def walk_object(p, f, path, start_pos, is_obj, is_obj_place_root, summaries, depth=0):
     """typestate of one object along one path, starting uninitialised.  Returns (verdict, where, what):
     verdict: init | read | accumulate | needs-init | partial | moved | unused"""
@@ -1678,7 +1721,7 @@ def walk_object(p, f, path, start_pos, is_obj, is_obj_place_root, summaries, dep
     for b in path[start_pos:]:
         blk = f.blocks[b]
         for s in blk["s"]:
-            if s[0] == "A" and s[2]["k"] == "Agg" and s[2].get("ak") == "Closure" and state in ("uninit", "tail-uninit"):
+            if s[0] == "A" and s[2]["k"] == "Agg" and s[2].get("ak") == "Closure" and state in ("uninit", "tail-uninit", "raw-partial"):
                 for k, o in enumerate(s[2]["o"]):
                     if o[0] in ("c", "m") and is_obj(flow_all.op_roots(o)):
                         cf = p.fn(f.duid(s[2]["clos"]))
@@ -1690,7 +1733,14 @@ def walk_object(p, f, path, start_pos, is_obj, is_obj_place_root, summaries, dep
                         for cb in sorted(cg.reach):
                             for cs in cf.blocks[cb]["s"]:
                                 if cs[0] == "A" and "*" in cs[1][1:] and any(r[0] == "param" and r[1] == 1 and r[2][:1] == (str(k),) for r in cflow.roots(cs[1][0])):
-                                    v = v or ("init", cf.where(cs[3]), "store")
+                                    kind = _raw_store_kind(p, f, b, s, cf, cs, is_obj)
+                                    if kind == "rmw":
+                                        # `x[i] op= y`: reads the limb it writes
+                                        v = v or ("accumulate", cf.where(cs[3]), "read-modify-write store")
+                                    elif kind == "range-partial" and state in ("uninit", "raw-partial"):
+                                        v = v or ("raw-partial", cf.where(cs[3]), "store over a sub-range")
+                                    elif state != "raw-partial":
+                                        v = v or ("init", cf.where(cs[3]), "store")
                             if v:
                                 break
                             ct = cf.blocks[cb]["t"]
@@ -1704,7 +1754,9 @@ def walk_object(p, f, path, start_pos, is_obj, is_obj_place_root, summaries, dep
                             if v:
                                 break
                         if v:
-                            if v[0] == "init":
+                            if v[0] == "raw-partial":
+                                state = "raw-partial"
+                            elif v[0] == "init":
                                 state = "init" if not shrunk else "init-partial"
                                 if state == "init":
                                     return ("init", v[1], v[2])
@@ -1746,13 +1798,19 @@ def walk_object(p, f, path, start_pos, is_obj, is_obj_place_root, summaries, dep
             if state == "init-partial":
                 # further uses before any growth are fine
                 break
+            if state == "raw-partial":
+                # only some limbs were written through raw indexing: a whole-object read / accumulation meets the others
+                if c in ("read", "accumulate", "needs-init"):
+                    return ("partial", where, nme)
+                if c == "init":
+                    return ("init", where, nme)
             if state == "tail-uninit":
                 if c in ("read", "accumulate", "needs-init"):
                     return ("partial", where, nme)
                 if c == "init":
                     return ("init", where, nme)
             break
-    if state in ("init-partial", "tail-uninit"):
+    if state in ("init-partial", "tail-uninit", "raw-partial"):
         return ("init", None, "partial-size initialisation, never grown before use")
     return ("unused", None, None)
 
@@ -1819,7 +1877,7 @@ def sc3(p, res):
                     witness = v
             if witness:
                 how = {"read": "a read operand", "accumulate": "an accumulate/in-place operand", "needs-init": "an operand the callee reads or accumulates into before overwriting it (callee summary)",
-                       "partial": "an accumulate/read operand after it was only initialised at a reduced size (set_size) and then grown"}[witness[0]]
+                       "partial": "an accumulate/read operand after only part of its limbs was initialised (at a reduced size before growing, or through raw indexing over a sub-range)"}[witness[0]]
                 res.bad("SC-3", f.pretty, "uninit-read:%s@%s" % (tname, witness[2]),
                         "%s: the object obtained with %s is first used by `%s` as %s on some path, before anything initialised it: the result depends on the previous contents of the scratch buffer"
                         % (f.pretty, tname, witness[2], how), site=witness[1])
